@@ -60,6 +60,11 @@ def compact_event(ids, model=None):
 
 def permuted(ids, rng, dup=True):
     out = list(ids)
+    mode = rng.randrange(6)
+    if mode == 0:
+        return sorted(set(out))                    # strictly ascending, no duplicates (a "pre-sorted" caller)
+    if mode == 1:
+        return sorted(set(out), reverse=True)
     rng.shuffle(out)
     if dup and out:
         for _ in range(rng.randrange(0, 3)):
@@ -125,6 +130,32 @@ def deep_descent(p, rng, maxres=29):
                 pass
         if ok:
             out.append(ok)
+    return out
+
+
+def stride_runs(p, rng):
+    """arithmetic progressions of same-level ids with the stride of a NEIGHBOURING level (and of the
+    level itself): equally spaced cells that are not a sibling group must never be merged"""
+    ser, org, utils = cells.api()
+    r = rng.randrange(1, 29)
+    c = {"r": r, "f": rng.randrange(p["NF"]), "s": rng.randrange(p["NS"]), "d": [rng.randrange(4) for _ in range(max(0, r - 2))] + ([0] if r >= 2 else [])}
+    first = cells.real_id(c)
+    out = []
+    for rr in (r - 2, r - 1, r, r + 1):
+        if rr < 0 or rr > 29:
+            continue
+        st = ser.get_stride(rr)
+        for n in (4, 5, 12):
+            run = []
+            for j in range(n):
+                x = first + j * st
+                try:
+                    if 0 < x < 2 ** 64 and ser.get_resolution(x) == r and ser.serialize(ser.deserialize(x)) == x:
+                        run.append(x)
+                except Exception:
+                    pass
+            if len(run) >= 3:
+                out.append(run)
     return out
 
 
